@@ -35,10 +35,10 @@ pub fn cfg(thorough: bool) -> StreamCfg {
 pub fn run(ctx: &Ctx) {
     ctx.replay_findings(&oracle);
     let c = cfg(ctx.thorough());
-    ctx.search("strict", ctx.n(120_000, 4_000_000), &move || gen::conformant_case(c, BuildOpts::STRICT), &oracle);
-    ctx.search("wide", ctx.n(40_000, 1_000_000), &move || gen::conformant_case(c, BuildOpts::WIDE), &oracle);
+    ctx.search("strict", ctx.n(250_000, 30_000_000), &move || gen::conformant_case(c, BuildOpts::STRICT), &oracle);
+    ctx.search("wide", ctx.n(80_000, 8_000_000), &move || gen::conformant_case(c, BuildOpts::WIDE), &oracle);
     let big = StreamCfg { max_recs: 170, calls: (1, 2), max_sets: 3, ..c };
-    ctx.search("many-records", ctx.n(2_000, 60_000), &move || gen::conformant_case(big, BuildOpts::STRICT), &oracle);
+    ctx.search("many-records", ctx.n(4_000, 400_000), &move || gen::conformant_case(big, BuildOpts::STRICT), &oracle);
     let wide = StreamCfg { max_fields: 90, ids: (1, 2), calls: (1, 2), max_sets: 3, max_recs: 3, ..c };
-    ctx.search("wide-templates", ctx.n(6_000, 150_000), &move || gen::conformant_case(wide, BuildOpts::STRICT), &oracle);
+    ctx.search("wide-templates", ctx.n(10_000, 1_000_000), &move || gen::conformant_case(wide, BuildOpts::STRICT), &oracle);
 }
